@@ -33,6 +33,7 @@ func runC17(w *World, r *Report) {
 	c17Required(w, r)
 	c17NoState(w, r)
 	c17NilErr(w, r)
+	c17SignVerifyKey(w, r)
 }
 
 func c17Verify(w *World, r *Report) {
@@ -421,4 +422,96 @@ func c17NilErr(w *World, r *Report) {
 			r.Check(flagged == "", "C17/NILERR", key, w.InstrPos(c), "the error edge of this call never ends in a nil-error return", "on the error edge of "+describeCall(c.Common())+" the function returns a nil error at "+flagged+": a failure on the verification path is reported as success")
 		}
 	}
+}
+
+// c17SignVerifyKey: the signer records the archive's digest under the same key the verifier looks up:
+// the base name of the path each was given (so a chart signed and then verified as the same file passes,
+// whatever the file is called), and the digest recorded is that of the file itself.
+func c17SignVerifyKey(w *World, r *Report) {
+	r.Rule("C17/SIGN-VERIFY-KEY", "the signer stores the archive digest in the signed message under filepath.Base of the path it was given and the verifier looks it up under filepath.Base of the path it was given; the digest on both sides is DigestFile of that same path", 2)
+	baseOfParam := func(fn *ssa.Function, v ssa.Value) bool {
+		c, ok := unwrapIface(v).(*ssa.Call)
+		if !ok {
+			return false
+		}
+		f, _ := calleeOf(c.Common())
+		if f == nil || fnPkgPath(f) != "path/filepath" || f.Name() != "Base" {
+			return false
+		}
+		_, isParam := resolveToParam(c.Call.Args[0]).(*ssa.Parameter)
+		return isParam
+	}
+	// signer
+	mb := w.Fn("pkg/provenance", "messageBlock")
+	if mb == nil {
+		r.Unk("C17/SIGN-VERIFY-KEY", "sign/anchor", "-", "provenance.messageBlock not found")
+	} else {
+		r.Fn(FuncName(mb))
+		ok, why := false, "no digest entry is written into the signed message"
+		for _, b := range mb.Blocks {
+			for _, in := range b.Instrs {
+				mu, isMU := in.(*ssa.MapUpdate)
+				if !isMU {
+					continue
+				}
+				if mt, isMap := mu.Map.Type().Underlying().(*types.Map); !isMap || !isStringType(mt.Key()) || !isStringType(mt.Elem()) {
+					continue
+				}
+				keyOK := baseOfParam(mb, mu.Key)
+				digOK := false
+				backSlice(mu.Value, func(v ssa.Value) bool {
+					if c, isC := v.(*ssa.Call); isC {
+						if f, _ := calleeOf(c.Common()); f != nil && FuncName(f) == "pkg/provenance.DigestFile" {
+							if _, isParam := resolveToParam(c.Call.Args[0]).(*ssa.Parameter); isParam {
+								digOK = true
+							}
+							return true
+						}
+					}
+					return false
+				})
+				ok = keyOK && digOK
+				if !keyOK {
+					why = "the digest is recorded under a name other than the base name of the file being signed"
+				} else if !digOK {
+					why = "the recorded digest is not DigestFile of the file being signed"
+				}
+			}
+		}
+		r.Check(ok, "C17/SIGN-VERIFY-KEY", "sign", w.Pos(mb.Pos()), "digest of the signed file recorded under its base name", why+": a chart signed under one file name no longer verifies under it")
+	}
+	// verifier
+	vf := w.Fn("pkg/provenance", "Signatory.Verify")
+	if vf == nil {
+		r.Unk("C17/SIGN-VERIFY-KEY", "verify/anchor", "-", "Signatory.Verify not found")
+		return
+	}
+	ok, why := false, "no lookup of the archive's name in the signed digest list"
+	for _, b := range vf.Blocks {
+		for _, in := range b.Instrs {
+			lk, isLk := in.(*ssa.Lookup)
+			if !isLk {
+				continue
+			}
+			if mt, isMap := lk.X.Type().Underlying().(*types.Map); !isMap || !isStringType(mt.Key()) || !isStringType(mt.Elem()) {
+				continue
+			}
+			if _, _, f := fieldNameOf(loadBase(lk.X)); f != "Files" {
+				continue
+			}
+			ok = baseOfParam(vf, lk.Index)
+			if !ok {
+				why = "the digest is looked up under a name other than the base name of the file being verified"
+			}
+		}
+	}
+	r.Check(ok, "C17/SIGN-VERIFY-KEY", "verify", w.Pos(vf.Pos()), "digest looked up under the base name of the verified file", why)
+}
+
+// loadBase: for a load *addr returns addr, else v.
+func loadBase(v ssa.Value) ssa.Value {
+	if ld, ok := v.(*ssa.UnOp); ok && ld.Op == token.MUL {
+		return ld.X
+	}
+	return v
 }
